@@ -18,7 +18,7 @@ def run(prop, table_file, table_name, key_fn, ok_fn, theorem_name, statement, le
     if not os.path.exists(os.path.join(core.COQ, "Sys", "Tables.vo")):
         core.coq_make(["Sys/Tables.vo"])
     with open(path, "w") as f:
-        f.write("From Coq Require Import String List Bool NArith.\nFrom GmVerif Require Import Sys.Tables.\nImport ListNotations.\n")
+        f.write("From Coq Require Import String List Bool NArith ZArith.\nFrom GmVerif Require Import Sys.Tables.\nImport ListNotations.\n")
         f.write("Set Printing Width 1000000.\nSet Printing Depth 1000000.\n")
         f.write('Load "Gen/%s".\n' % table_file)
         f.write("Eval vm_compute in (length %s).\n" % table_name)
